@@ -231,39 +231,75 @@ def best_function(src):
         raise mc.Unsupported('best: parameter is no longer (std::vector<const definition*>& candidates): ' + params)
     ast = mc.parse_function_body(body)
     st = [x for x in ast[1] if x != ('using',)]
-    if len(st) != 2 or st[1] != ('return', ('id', 'candidates')):
-        raise mc.Unsupported('best: body is no longer <for ...; return candidates;>: ' + mc.show(st))
-    loop = st[0]
-    if not (loop[0] == 'rangefor' and loop[1] == 'spec' and loop[2] == ('id', 'candidates')):
-        raise mc.Unsupported('best: loop is no longer `for (auto spec : candidates)`: ' + mc.show(loop[:3]))
-    inner = loop[3]
-    if inner[0] == 'block' and len(inner[1]) == 1:
-        inner = inner[1][0]
-    if not (inner[0] == 'if' and not inner[1] and inner[4] is None):
-        raise mc.Unsupported('best: loop body is no longer a single if without else: ' + mc.show(inner))
-    then = inner[3]
-    if then[0] == 'block' and len(then[1]) == 1:
-        then = then[1][0]
-    if then != ('return', ('initlist', [('id', 'spec')])):
-        raise mc.Unsupported('best: the if no longer returns {spec}: ' + mc.show(then))
-    cond = inner[2]
     cb = ('call', ('member', ('id', 'candidates'), 'begin', False), [])
     ce = ('call', ('member', ('id', 'candidates'), 'end', False), [])
+    lams = {}
+    while st and st[0][0] == 'decl' and len(st[0][2]) == 1 and st[0][2][0][1] is not None and st[0][2][0][1][0] == 'lambda':
+        lams[st[0][2][0][0]] = st[0][2][0][1]          # a named local predicate
+        st = st[1:]
+    if not st or st[-1] != ('return', ('id', 'candidates')):
+        raise mc.Unsupported('best: body is no longer <for ...; return candidates;>: ' + mc.show(st))
+
+    def one(x):
+        return x[1][0] if x[0] == 'block' and len(x[1]) == 1 else x
+
+    SPEC = OTHER = None
+    if len(st) == 2:
+        loop = st[0]
+        if not (loop[0] == 'rangefor' and isinstance(loop[1], str) and loop[2] == ('id', 'candidates')):
+            raise mc.Unsupported('best: loop is no longer `for (auto spec : candidates)`: ' + mc.show(loop[:3]))
+        SPEC = loop[1]
+        inner = one(loop[3])
+        if not (inner[0] == 'if' and not inner[1] and inner[4] is None):
+            raise mc.Unsupported('best: loop body is no longer a single if without else: ' + mc.show(inner))
+        if one(inner[3]) != ('return', ('initlist', [('id', SPEC)])):
+            raise mc.Unsupported('best: the if no longer returns {spec}: ' + mc.show(inner[3]))
+        cond = inner[2]
+    elif len(st) == 3:
+        # auto w = std::find_if(candidates.begin(), candidates.end(), P); if (w != candidates.end()) return {*w};
+        #    is    for (auto spec : candidates) if (P(spec)) return {spec};       (find_if: the first element, in order, that satisfies P)
+        d, iff = st[0], st[1]
+        ok = (d[0] == 'decl' and len(d[2]) == 1 and d[2][0][1] is not None and d[2][0][1][0] == 'call' and d[2][0][1][1] == ('id', 'std::find_if')
+              and len(d[2][0][1][2]) == 3 and d[2][0][1][2][:2] == [cb, ce])
+        if ok:
+            w = ('id', d[2][0][0])
+            ok = (iff[0] == 'if' and not iff[1] and iff[4] is None and iff[2] in (('bin', '!=', w, ce), ('bin', '!=', ce, w))
+                  and one(iff[3]) == ('return', ('initlist', [('un', '*', w)])))
+        if not ok:
+            raise mc.Unsupported('best: body is neither the loop nor <find_if; if (found) return {*found}; return candidates;>: ' + mc.show(st))
+        P = d[2][0][1][2][2]
+        if P[0] == 'id' and P[1] in lams:
+            P = lams[P[1]]
+        if P[0] != 'lambda' or len(P[2]) != 1:
+            raise mc.Unsupported('best: the predicate handed to find_if is not a lambda of one parameter: ' + mc.show(P))
+        SPEC = P[2][0]
+        pb = [x for x in P[3][1] if x != ('using',)]
+        if len(pb) == 1 and pb[0][0] == 'return' and pb[0][1] is not None:
+            cond = pb[0][1]
+        elif (len(pb) == 2 and pb[0][0] == 'rangefor' and isinstance(pb[0][1], str) and pb[0][2] == ('id', 'candidates') and pb[1] == ('return', ('bool', True))
+              and one(pb[0][3])[0] == 'if' and not one(pb[0][3])[1] and one(pb[0][3])[4] is None and one(one(pb[0][3])[3]) == ('return', ('bool', False))):
+            # for (other : candidates) if (C) return false;  return true;      is      all_of(candidates, !C)
+            cond = ('call', ('id', 'std::all_of'), [cb, ce, ('lambda', [SPEC], [pb[0][1]], ('block', [('return', ('un', '!', one(pb[0][3])[2]))]))])
+        else:
+            raise mc.Unsupported('best: the predicate is neither a single return nor <for (other : candidates) if (...) return false; return true;>: ' + mc.show(pb))
+    else:
+        raise mc.Unsupported('best: body is no longer <for ...; return candidates;>: ' + mc.show(st))
     none_of = cond[0] == 'call' and cond[1] == ('id', 'std::none_of')          # none_of(p) is all_of(!p)
     if not (cond[0] == 'call' and cond[1] in (('id', 'std::all_of'), ('id', 'std::none_of')) and len(cond[2]) == 3 and cond[2][0] == cb and cond[2][1] == ce
             and cond[2][2][0] == 'lambda'):
         raise mc.Unsupported('best: condition is no longer std::all_of(candidates.begin(), candidates.end(), <lambda>): ' + mc.show(cond))
     lam = cond[2][2]
-    if lam[1] != ['spec'] or lam[2] != ['other']:
+    if [c.lstrip('&') for c in lam[1] if c not in ('&', '=')] not in ([SPEC], []) or len(lam[2]) != 1 or lam[2][0] == SPEC:
         raise mc.Unsupported('best: lambda is no longer [spec](auto other): captures %r params %r' % (lam[1], lam[2]))
+    OTHER = lam[2][0]
     lb = [x for x in lam[3][1] if x != ('using',)]
     if len(lb) != 1 or lb[0][0] != 'return' or lb[0][1] is None:
         raise mc.Unsupported('best: lambda body is not a single return: ' + mc.show(lb))
 
     def who(e):
-        if e == ('id', 'spec'):
+        if e == ('id', SPEC):
             return 'WSpec'
-        if e == ('id', 'other'):
+        if e == ('id', OTHER):
             return 'WOther'
         raise mc.Unsupported('best: predicate mentions something else than spec / other: ' + mc.show(e))
 
